@@ -109,7 +109,7 @@ def isMem (op : String) : Bool :=
 def relevant (e : Ev) : Bool :=
   if ["CALL", "RET", "INVOKE", "INVOKED", "ALLOC", "FREE", "SPAWN", "FORK", "FORK_PARENT", "FORK_CHILD", "CHILD_EXIT",
       "JOIN", "THREAD_EXIT", "WORKER", "QUIET", "RESUME", "CREADER", "ATFORK", "CRDLIST", "REGISTRY", "FINAL", "CPU",
-      "FREERACER"].contains e.op then true
+      "FREERACER", "MASK", "FORK_EXEC", "FORKER2"].contains e.op then true
   else if e.op == "LOCK" || e.op == "UNLOCK" then
     e.arg 0 == "call_rcu_mutex" || e.arg 0 == "gp_lock" || e.arg 0 == "registry_lock"
   else if isMem e.op then
@@ -142,10 +142,25 @@ partial def rel (t : Nat) (desc : String) (sig : Bool := false) : M Ev := do
       pure e
     else rel t desc sig
 
-def expectSig (t : Nat) (what : String) : M Unit := do
+/-- "m=8400" (hexadecimal bit set of blocked signals) -/
+def maskOf (w : String) : Except String Nat :=
+  if w.startsWith "m=" then natOf ("0x" ++ (w.drop 2).toString) else .error s!"bad mask {w}"
+
+/-- pthread_sigmask() inside a bp fork handler; returns the mask the event carries (block: the old mask
+handed back to the library; restore: the mask installed) -/
+def expectSig (t : Nat) (what : String) : M Nat := do
   let e ← rel t s!"SIGMASK {what}" true
-  if e.op == "SIGMASK" && e.arg 0 == what then pure ()
+  if e.op == "SIGMASK" && e.arg 0 == what then
+    match maskOf (e.arg 1) with
+    | .ok m => pure m
+    | .error _ => pure 0
   else P.fail s!"expected SIGMASK {what} (pthread_sigmask), got {e.show}"
+
+/-- the mask the library installs / saves must be the one the bp model predicts for thread `t` -/
+def checkMask (t m : Nat) (what : String) : M Unit := P.act fun g =>
+  if g.flavor == "bp" && g.bp.mask t != m then
+    .error s!"{what}: thread T{t} gets signal mask {m}, the model (mask_restored) says {g.bp.mask t}"
+  else .ok { g with cov := bump g.cov "mask_checked" }
 
 def expect (t : Nat) (op : String) (args : List String) : M Unit := do
   let e ← rel t s!"{op} {" ".intercalate args}"
@@ -585,20 +600,24 @@ partial def appLoop (t : Nat) : M Unit := do
   | "CALL", "after_fork_parent" => afterForkParent t
   | "CALL", "after_fork_child" => afterForkChild t
   | "CALL", "bp_before_fork" =>
-    expectSig t "block"; labBp (.bfCall t)
+    let m ← expectSig t "block"
+    checkMask t m "urcu_bp_before_fork (old mask)"
+    labBp (.bfCall t)
     expect t "LOCK" ["gp_lock"]; labBp (.bfGp t)
     expect t "LOCK" ["registry_lock"]; labBp (.bfRg t)
     expect t "RET" ["bp_before_fork"]
   | "CALL", "bp_after_fork_parent" =>
     expect t "UNLOCK" ["registry_lock"]; labBp (.apRg t)
     expect t "UNLOCK" ["gp_lock"]; labBp (.apGp t)
-    expectSig t "restore"
+    let m ← expectSig t "restore"
+    checkMask t m "urcu_bp_after_fork_parent"
     expect t "RET" ["bp_after_fork_parent"]
   | "CALL", "bp_after_fork_child" =>
     -- urcu_bp_prune_registry() only does plain stores (not visible); its effect is compared through REGISTRY
     expect t "UNLOCK" ["registry_lock"]; labBp (.acPrune t); labBp (.acRg t)
     expect t "UNLOCK" ["gp_lock"]; labBp (.acGp t)
-    expectSig t "restore"
+    let m ← expectSig t "restore"
+    checkMask t m "urcu_bp_after_fork_child"
     expect t "RET" ["bp_after_fork_child"]
   | "CALL", _ => skipToRet t (e.arg 0)
   | "CPU", _ =>
@@ -613,6 +632,13 @@ partial def appLoop (t : Nat) : M Unit := do
       modify fun g => { g with gen := g.gen + 1 }
       cover "fork_child"
     else P.fail s!"expected FORK_PARENT or FORK_CHILD, got {e2.show}"
+  | "MASK", _ =>
+    match maskOf (e.arg 0) with
+    | .ok m => labBp (.setMask t m)
+    | .error er => P.fail er
+  | "FORK_EXEC", _ =>
+    -- a thread that only uses the bp handlers: its fork() is seen from the parent side only
+    labBp (.forkParent t); cover "fork_exec"
   | "REGISTRY", _ => checkRegistry t e
   | "CRDLIST", _ => checkCrdList e
   | "ATFORK", _ => checkAtFork e
